@@ -808,7 +808,12 @@ func genMultiDB(r *rand.Rand, id string, size int, total int) []string {
 		n := 2 + g.pick(len(peers)-1)
 		dbPeers[k] = peers[:n]
 	}
-	g.add("scn %s kind=%s acl=%s peers=%s events=1", id, dbKind[0], joinInts(dbPeers[0]), joinInts(dbPeers[0]))
+	// in half of the scenarios every peer passes ONE options value to all the databases it opens
+	reuse := ""
+	if g.pick(2) == 0 {
+		reuse = " reuse=1"
+	}
+	g.add("scn %s kind=%s acl=%s peers=%s events=1%s", id, dbKind[0], joinInts(dbPeers[0]), joinInts(dbPeers[0]), reuse)
 	for k := 1; k < ndb; k++ {
 		acl := joinInts(dbPeers[k])
 		if g.pick(3) == 0 {
@@ -854,6 +859,11 @@ func genMultiDB(r *rand.Rand, id string, size int, total int) []string {
 			}
 		}
 		obsEverything()
+		if g.pick(6) == 0 {
+			// the instance goes down and comes back: every database reloads from ITS OWN cache
+			g.add("restart %d", p)
+			obsEverything()
+		}
 	}
 	return g.lines
 }
